@@ -66,6 +66,11 @@ def general_scenario(rng, i, tier, extra_prof=None):
         GEN.add_const_rules(rng, spec)
     if m == 6:                      # early stop on the output position / speed / motor current
         add_stop(rng, spec)
+        if rng.random() < 0.6:
+            # the runs after the first one are issued WITHOUT the stop condition: a history that was stopped early is continued
+            # for its whole duration (with the condition still in force the continuation ends after one instant)
+            for o_ in [o_ for o_ in spec['schedule'] if o_['op'] == 'run'][1:]:
+                o_['stop'] = False
     if m in (3, 7) and rng.random() < 0.6:
         # position- / speed-keyed rules (duty cycles that vary from instant to instant)
         from . import c15 as C15
